@@ -57,7 +57,7 @@ CancelHanded == /\ handed > 0 /\ Release(permits, waiting, handed - 1)
            /\ UNCHANGED <<pre, recycling, creating, postc, unsized, rejecting, out, returning, idle, size>>
 PopIdle == /\ pre > 0 /\ idle > 0 /\ pre' = pre - 1 /\ idle' = idle - 1 /\ recycling' = recycling + 1
            /\ UNCHANGED <<permits, waiting, handed, creating, postc, unsized, rejecting, out, returning, size>>
-PopNone == /\ pre > 0 /\ pre' = pre - 1 /\ creating' = creating + 1
+PopNone == /\ pre > 0 /\ idle = 0 /\ pre' = pre - 1 /\ creating' = creating + 1
            /\ UNCHANGED <<permits, waiting, handed, recycling, postc, unsized, rejecting, out, returning, idle, size>>
 RecycleOk == /\ recycling > 0 /\ recycling' = recycling - 1 /\ out' = out + 1
            /\ UNCHANGED <<permits, waiting, handed, pre, creating, postc, unsized, rejecting, returning, idle, size>>
@@ -100,7 +100,6 @@ IndInv ==
 \* the properties
 C01 == idle + recycling + creating + unsized + postc + rejecting + out <= Max   \* objects that exist or are being created
 NoUnderflow == size >= 0
-Bogus == out <= 0
 IndInit ==
   /\ permits \in Int
   /\ waiting \in Int
